@@ -173,6 +173,43 @@ theorem getUnverified_classifies (p : Pool H) (txs : List H) (height : Nat) (hp 
 theorem getUnverified_shrinks (p : Pool H) (txs : List H) (height : Nat) :
     (getUnverified p txs height).1.Sublist p := getUnverified_sublist p txs height
 
+/-! ### Worker level: answer order and the height raised by consensus -/
+
+/-- Whatever order the validators answer in, an entry enters the pool only with a result of BOTH validators. -/
+theorem answer_adds_only_complete (s : WState H) (k h : Nat) (e : Entry H) (he : e ∈ (s.answer k h).pool) :
+    e ∈ s.pool ∨ (hasKind e.attrs 0 = true ∧ hasKind e.attrs 1 = true) := by
+  unfold WState.answer at he
+  simp only at he
+  rcases mem_foldl_add _ _ e he with h1 | ⟨p, hp, rfl⟩
+  · exact Or.inl h1
+  · right
+    have := (List.mem_filter.1 hp).2
+    simpa using this
+
+/-- A stateful answer obtained below the height last requested by consensus is never recorded. -/
+theorem answer_below_height_not_recorded (srvHeight h : Nat) (attrs : List Attr) (hlt : h < srvHeight) :
+    recordAnswer srvHeight 1 h attrs = attrs := by
+  simp [recordAnswer, hlt]
+
+/-- Every entry handed to consensus for height `h` is a pool entry all of whose stateful results were obtained at
+or after `h`; entries with an older stateful result are not handed out (they leave the pool for re-verification
+when met). For every iteration order of the map. -/
+theorem handed_out_verified_at_height (s : WState H) (order : Pool H) (hperm : List.Perm order s.pool)
+    (hnd : (keys s.pool).Nodup) (byCount : Bool) (height maxTx : Nat) :
+    (∀ e ∈ (s.getTx order byCount height maxTx).2,
+        e ∈ s.pool ∧ ∀ a ∈ e.attrs, a.stateful = true → height ≤ a.height) ∧
+    (s.getTx order byCount height maxTx).1.height = height := by
+  refine ⟨?_, rfl⟩
+  intro e he
+  have hb := (getTxPool_bounds s.pool order hperm hnd byCount height maxTx).2.2.2.1 e he
+  refine ⟨hb.1, ?_⟩
+  intro a ha hs
+  have hf := hb.2
+  unfold fresh at hf
+  have := List.all_eq_true.1 hf a ha
+  simp [hs] at this
+  exact this
+
 end
 
 /-! ### Server level (counts) -/
